@@ -47,7 +47,7 @@ def configure(tier, avoid):
         max_stmts=14 if quick else 28, max_depth=2 if quick else 3,
         expr_depth=3 if quick else 4, max_procs=2 if quick else 3,
         edgy=0.05, avoid=avoid)
-    return {'examples': 320 if quick else 6000, 'params': p,
+    return {'examples': 320 if quick else 3000, 'params': p,
             'bounds': {'max_stmts': p.max_stmts, 'max_depth': p.max_depth,
                        'expr_depth': p.expr_depth, 'configs': [
                            X.cfg_name(c) for c in CONFIGS]},
